@@ -25,6 +25,8 @@ Unannotated stretch at 8000 (both chromosomes).  Structures (each with a coverag
  LQ unannotated two-exon locus on chr2 (11501-11700, 12001-12300): every third read is full-length with MAPQ 60 and a polyA tail, the
     others are unspliced MAPQ-3 fragments inside the second exon: the model passes the construction-time MAPQ filter and fails the
     late one (mean MAPQ of ALL attached reads < 30) - whatever is decided, the GTF and the model-reads table must agree
+ D1 reads with exactly T1's intron chain whose last exon runs 300 bp past the annotated end (an unannotated distal polyA site): whatever
+    is reported for them, never a "novel" model with the intron chain of a reference transcript
  W2 full-length reads of T7 (gene G5) WITH polyA tails: the known isoform is reported (next to J1: novel genes inside a reported gene)
  Y0 full-length reads of TA (gene G11: TA = exons 1-5, TB = exons 1,3,5)
  Y1 reads over G11 exons 1,2',3,5 where 2' starts 12 bp upstream of the annotated acceptor (more than delta, less than the
@@ -37,7 +39,7 @@ import shutil
 
 from vlib import worlds as W
 
-STRUCTS = ["K1", "K2", "K4", "P1", "Q1", "N1", "N2", "N3", "X1", "X2", "M1", "A1", "G1", "S1", "V1", "W1", "V2", "H1", "H2", "Y0", "Y1", "I1", "I2", "F1", "F2", "Z1", "Z2", "S2", "J1", "NC", "MA", "H3", "W2", "LQ"]
+STRUCTS = ["K1", "K2", "K4", "P1", "Q1", "N1", "N2", "N3", "X1", "X2", "M1", "A1", "G1", "S1", "V1", "W1", "V2", "H1", "H2", "Y0", "Y1", "I1", "I2", "F1", "F2", "Z1", "Z2", "S2", "J1", "NC", "MA", "H3", "W2", "LQ", "D1"]
 NC_EXONS = [[6501, 6650], [6801, 6950], [7101, 7300]]
 # three unannotated loci inside gene G5 (+): two on '+' (in introns 1 and 3), one antisense spanning both (canonical for '-')
 J_PLUS_A = [[9321, 9420], [9521, 9620], [9681, 9780]]
@@ -51,7 +53,7 @@ G6_EXONS = [[4601, 4750], [4901, 5050], [5201, 5350], [5501, 5650], [6701, 6850]
 G5_EXONS = [[9001, 9300], [9801, 10000], [10601, 10800], [11401, 11700], [12501, 13000]]     # long last exon (500 bp)
 LEVELS = (1, 3, 12)
 # structures by the locus they live in (structures of different loci do not interact except through id numbering)
-LOCUS = {"G1": ["K1", "K2", "P1", "Q1", "N1", "N2", "N3", "X1", "X2", "A1", "S1", "V1", "I1", "I2"], "G2": ["K4"], "U1": ["M1"], "U2": ["G1"],
+LOCUS = {"G1": ["K1", "K2", "P1", "Q1", "N1", "N2", "N3", "X1", "X2", "A1", "S1", "V1", "I1", "I2", "D1"], "G2": ["K4"], "U1": ["M1"], "U2": ["G1"],
          "G5": ["W1", "V2", "J1", "W2"], "G6": ["H1", "H2", "F1", "F2", "H3"], "G11": ["Y0", "Y1"], "ZA": ["Z1"], "ZB": ["Z2"], "U3": ["S2"], "U4": ["NC"], "U5": ["MA"], "U6": ["LQ"]}
 LOCUS_OF = {st: loc for loc, sts in LOCUS.items() for st in sts}
 
@@ -151,6 +153,8 @@ def structure_reads(struct, level, tag):
                 reads.append(W.read_of(nm, "chr2", [[11501, 11700], [12001, 12300]]))
             else:
                 reads.append(W.read_of(nm, "chr2", [[12041 + 5 * k, 12200 + 5 * k]], polya=False, mapq=3))
+        elif struct == "D1":
+            reads.append(W.read_of(nm, "chr1", E([0, 1, 2, 3]) + [slot(4, de=300)]))
         elif struct == "W2":
             reads.append(W.read_of(nm, "chr1", G5_EXONS))
         elif struct == "Y0":
